@@ -78,7 +78,7 @@ When finished, leave the worktree with your change APPLIED to the working tree (
 If after honest effort you cannot find such a change, say so plainly rather than delivering a weak or broad one.
 """
 for pid, p in props.items():
-    if pid not in ('C03','C05','C06','C11','C12','C14','C15','C16'): continue
+    if pid not in ('C01','C02','C04','C07','C08','C09','C10','C13'): continue
     wt = f"/tmp/wt-{pid}-h"
     pt = f"**{pid} - {p['title']}**\n\n{p['statement']}\n\nQuantifier: {p['quantifier']['text']}\n\nWhere it lives (anchors): " + json.dumps(p['anchors'], indent=1)
     av = "\n".join(f"* {a} ..." for a in avoid.get(pid, []))
